@@ -159,8 +159,15 @@ def tablePhase (cfg : RCfg) (r : RDisk) : List ROp × TAcc := tableLoop cfg r {}
 
 /-! ## phase 2: the manifest -/
 
-/-- `s.stNextFileNum` after `s.markFileNum(fds[len(fds)-1].Num)`: the number `newManifest` allocates -/
-def manifestNum (r : RDisk) : Nat := if r.disk.tables.isEmpty then 0 else maxNum r.disk.tables.nums + 1
+/-- every file number `s.stor.List(storage.TypeAll)` shows: tables, journals, manifests and temporary files -/
+def allNums (r : RDisk) : List Nat :=
+  r.disk.tables.nums ++ r.disk.journals.nums ++ r.disk.manifests.nums ++ r.temps.nums
+
+/-- `s.stNextFileNum` after `recoverTable` has marked EVERY file number found in the storage
+    (`for _, fd := range all { s.markFileNum(fd.Num) }`, the repair of D47; the code as found marked the last table
+    only, so that the new manifest could get a number below a manifest still on disk): the number `newManifest`
+    allocates.  `Gen.recoverMarksAllFileNums` is the extracted fact. -/
+def manifestNum (r : RDisk) : Nat := if (allNums r).isEmpty then 0 else maxNum (allNums r) + 1
 
 /-- the record `newManifest` writes for `s.commit(rec, false)`: `fillRecord(rec, true)` adds the comparer, journal
     number `s.stJournalNum = 0` and the next file number; `rec` carries `maxSeq` and the tables -/
